@@ -169,8 +169,7 @@ class Inter:
         t = e.target
         if t is None or tag(e.result) != "call":
             return [p]
-        if any(t.locals[i + 1]["ty"].startswith("&mut ") for i in range(t.arg_count)):
-            return [p]
+        muts = [i for i in range(t.arg_count) if t.locals[i + 1]["ty"].startswith("&mut ") and "dyn cosmwasm_std::Storage" not in t.locals[i + 1]["ty"]]
         m = self.param_map(t, e.args)
         try:
             oks = self.ok_paths_at(t, m)
@@ -182,7 +181,14 @@ class Inter:
         for cp in oks:
             ret = sym.subst(cp.ret, m)
             extra = [(sym.subst(a, m), o, bb, ln) for (a, o, bb, ln) in cp.conds]
-            q2 = self._subst_path(p, {e.result: ret}, extra, e)
+            mapping = {e.result: ret}
+            for i in muts:
+                # the caller saw the pointee of a `&mut` argument as "mutated by this call": now it is the callee's value
+                if i < len(e.args):
+                    pk = sym.param(t.key, i, t.param_name(i))
+                    newv = sym.subst(cp.ptr_out[pk], m) if pk in cp.ptr_out else e.args[i]
+                    mapping[mk("mutby", (i,), (e.result, e.args[i]))] = newv
+            q2 = self._subst_path(p, mapping, extra, e)
             if q2 is None:
                 continue
             # splice the callee's events (in the caller's terms) right after the call
